@@ -811,3 +811,67 @@ W["assert_k_of_n"] = dict(
                  "Var/Clause/CNF wrappers are modelled by the wrapped values; the unit clauses appended at the end are collected in the ghost U, definitional clauses "
                  "enter through the callee contracts"],
 )
+
+# ------------------------------------------------------------------ core/cnf.py: _inequality_assertion (assert_k_less_than_n / assert_k_greater_than_n) for every n and k (C10)
+# Same scheme as assert_k_of_n: definitional clauses enter through callee contracts (pop_count, the fresh threshold variables fixed to k's bits, padding,
+# two's complement, ripple-carry adder), the final unit clause set_to_one(ss[-1]) is collected in U.  Postcondition: U iff count < k (resp. count > k).
+_BE_MACROS = dict(_CNF_MACROS)
+_BE_MACROS["BE"] = (["zs"], "sum(j, 0, len(zs), wbit(zs[len(zs) - 1 - j], j))")
+_NZ = "forall(j, 0, len({x}), {x}[j] != 0)"
+_GET_N_FRESH = dict(params={"n": "int"}, returns="list[int]", ensures=["len(result) == ite(n > 0, n, 0)", "forall(j, 0, len(result), result[j] > 0)"])
+_PREPEND_DEFS = dict(params={"units": "list[int]"}, ensures=["forall(j, 0, len(units), L(units[j]))"],       # unit clauses on FRESH variables: definitions
+                     ghost_after=["KV0 = k_vars", "SB0 = sum_bits"])
+_MSL = dict(params={"xs": "list[int]", "ys": "list[int]"}, modifies=["xs", "ys"], requires=[_NZ.format(x="xs"), _NZ.format(x="ys")],
+            ensures=["len(xs) == len(ys)", "BE(xs) == BE(old_xs)", "BE(ys) == BE(old_ys)", _NZ.format(x="xs"), _NZ.format(x="ys"),
+                     "implies(len(old_xs) == len(old_ys), len(xs) == len(old_xs))",
+                     "implies(len(old_xs) != len(old_ys), len(xs) == max(len(old_xs), len(old_ys)) + 1 and not L(xs[0]) and not L(ys[0]))"])
+_NEG2C = dict(params={"bits": "list[int]"}, requires=["len(bits) >= 1", _NZ.format(x="bits")], returns="list[int]",
+              ensures=["len(result) == len(bits)", _NZ.format(x="result"), "BE(result) == ite(BE(bits) == 0, 0, pow2(len(bits)) - BE(bits))"])
+_RIPPLE_SEM = dict(params={"xs": "list[int]", "ys": "list[int]"}, requires=["len(xs) == len(ys)", "len(xs) >= 1", _NZ.format(x="xs"), _NZ.format(x="ys")],
+                   returns="tuple[int,list[int]]",
+                   ensures=["len(result[1]) == len(xs)", "result[0] != 0", "forall(j, 0, len(xs), result[1][j] != 0)",
+                            "sum(j, 0, len(xs), wbit(result[1][j], j)) + wbit(result[0], len(xs)) == BE(xs) + BE(ys)"])
+_LEN = "len(kbs)"
+_SLOW = "sum(j, 0, len(kbs) - 1, wbit(ss[j], j))"
+W["inequality_assertion"] = dict(
+    id="inequality_assertion", target="sweetpea._internal.core.cnf:CNF._inequality_assertion", prop=["C10"],
+    params={"assert_less_than": "bool", "k": "int", "in_list": "list[int]"},
+    ghost={"U": ("bool", "True"), "KV0": ("list[int]", "[]"), "SB0": ("list[int]", "[]")},
+    spec_funcs={"val": (["int"], "bool")},
+    macros=_BE_MACROS, identity_calls=["Var", "Clause", "CNF"], identity_attrs=["value"],
+    lemmas=["sum_ranges", "binary"], ms=45000,
+    uses={"self._assert_unsatisfiable": dict(params={"in_list": "list[int]"}, ghost_after=["U = False"]),
+          "int_to_binary": _INT_TO_BINARY, "self.pop_count": _POP_COUNT, "self.get_n_fresh": _GET_N_FRESH,
+          "self.prepend#0": _PREPEND_DEFS, "self._make_same_length": _MSL,
+          "self._convert_to_negative_twos_complement": _NEG2C, "self.ripple_carry": _RIPPLE_SEM,
+          "self.set_to_one": dict(params={"variable": "int"}, ghost_after=["U = U and L(arg_variable)"])},
+    requires=["k >= 0", "len(in_list) >= 1", "forall(j, 0, len(in_list), in_list[j] > 0)"],
+    post_hints_at={-1: [
+        "forall(j, 0, len(in_binary), in_binary[j] == 1 or in_binary[j] == -1)",
+        "len(KV0) == len(in_binary) and forall(j, 0, len(KV0), KV0[j] > 0)",
+        "len(assertion) == len(KV0)",
+        "forall(i, 0, len(KV0), assertion[i] == KV0[i] * in_binary[i])",
+        "forall(i, 0, len(KV0), assertion[i] == ite(in_binary[i] == 1, KV0[i], 0 - KV0[i]))",
+        "forall(i, 0, len(KV0), L(assertion[i]))",
+        "forall(i, 0, len(KV0), L(ite(in_binary[i] == 1, KV0[i], 0 - KV0[i])))",
+        "forall(i, 0, len(KV0), iff(L(KV0[i]), in_binary[i] == 1))",
+        "BE(KV0) == k",
+        "k < pow2(len(in_binary))",
+        "BE(k_vars) == k",
+        "BE(sum_bits) == BE(SB0)",
+        f"implies(BE(SB0) != {_CNT}, len(SB0) == len(in_binary) + 1 and {_CNT} >= pow2(len(in_binary)) and BE(SB0) >= pow2(len(in_binary)))",
+        f"{_LEN} == len(nbs) and {_LEN} >= 1 and len(ss) == {_LEN}",
+        # magnitudes: either both operands leave the top position free, or (no padding, LT only) the threshold is exactly the top power and the count at most that
+        f"(BE(kbs) < pow2({_LEN} - 1) and BE(nbs) < pow2({_LEN} - 1)) or (BE(nbs) == pow2({_LEN} - 1) and BE(kbs) <= pow2({_LEN} - 1))",
+        f"pow2({_LEN}) == 2 * pow2({_LEN} - 1)",
+        f"sum(j, 0, {_LEN}, wbit(ss[j], j)) == {_SLOW} + wbit(ss[{_LEN} - 1], {_LEN} - 1)",
+        f"0 <= {_SLOW} and {_SLOW} < pow2({_LEN} - 1)",
+        f"iff(L(ss[{_LEN} - 1]), BE(kbs) < BE(nbs))",
+        f"iff(U, BE(kbs) < BE(nbs))",
+    ]},
+    ensures=[f"implies(assert_less_than, iff(U, {_CNT} < k))", f"implies(not assert_less_than, iff(U, {_CNT} > k))"],
+    assumptions=["pop_count (symbolic n), _make_same_length (padding keeps both values, equal lengths, a false leading bit on both sides when it pads) and "
+                 "_convert_to_negative_twos_complement (value 2^L - x, 0 for 0) are used by contract: assumed here for all widths, checked per shape in the S tier "
+                 "(C10/C12) and on large n by C10.large; ripple_carry's sum equation is the proved contract of C12.wp.ripple_carry",
+                 "the unit clauses that fix the fresh threshold variables to the bits of k are definitions (assumed), the final unit clause is collected in the ghost U"],
+)
